@@ -312,7 +312,8 @@ fn run_on_engine(
     let mut engine = base.clone();
     cond.apply(&mut engine);
     let labels = utterance_for(env, rng, max_labels);
-    let lines = if cond.alignment {
+    // (with alignment on, one utterance in four is still handed over as parsed labels)
+    let lines = if cond.alignment && !rng.chance(0.25) {
         Some(annotate(rng, &labels, engine.condition.get_sampling_frequency(), engine.condition.get_fperiod()))
     } else {
         None
